@@ -308,6 +308,7 @@ func c10Invariants(env *vEnv, accepted map[string]bool, step int, op c10Op) stri
 	clone.Restart()
 	live, fresh := c10Sets(env), c10Sets(clone)
 	clone.close()
+	env.install() // the clone installed itself as the entity factory
 	if live != fresh {
 		return fmt.Sprintf("bookkeeping-drift: step %d %v: live bookkeeping {%s}, a fresh reload of the same store gives {%s}", step, op, live, fresh)
 	}
